@@ -177,8 +177,9 @@ def rule_f2(repo, res):
     onebyte = set()
     for n in ast.walk(fn):
         if isinstance(n, ast.For) and isinstance(n.target, ast.Name):
-            src = norm(n.iter)
-            if ".read(1)" in src:
+            src = norm(n.iter, 200)
+            # iter(lambda: f.read(1), b"") / iter(partial(f.read, 1), b"")
+            if ".read(1)" in src or ("partial(" in src and ".read, 1)" in src):
                 onebyte.add(n.target.id)
         if isinstance(n, ast.Assign) and isinstance(n.targets[0], ast.Name) and ".read(1)" in norm(n.value):
             onebyte.add(n.targets[0].id)
@@ -202,7 +203,7 @@ def rule_f2b(repo, res):
     incremental decoder returns '' for the lead byte(s) of a multi-byte character, which is not the end of the
     stream."""
     fn = repo.full_function("__init__", "decode_by_char")
-    loops = [n for n in ast.walk(fn) if isinstance(n, ast.For)]
+    loops = [n for n in ast.walk(fn) if isinstance(n, (ast.For, ast.While))]
     res.floor("read loops in decode_by_char", len(loops), 1)
     for lp in loops:
         # names (re)assigned from a .decode(...) call inside the loop
